@@ -408,23 +408,21 @@ fn searches(dir: &str, d: &Disk, creation_sec: u64, secs: &[u64], res: &[String]
     None
 }
 
-fn run(sc: &Scn, root: &str, w: &mut World, tr: &mut Trace, cov: &mut Cov) -> Option<Violation> {
-    let live = format!("{}/live/", root);
-    let synth = format!("{}/synth/", root);
-    let _ = std::fs::remove_dir_all(root);
-    std::fs::create_dir_all(&live).expect("mkdir");
+/// The writer phase of a scenario: configuration, a new writer, one write call per second of the
+/// history, everything below `live` recorded by the file-system seam (started here, stopped by the caller).
+fn write_history(sc: &Scn, live: &str, w: &mut World, cov: &mut Cov) -> Result<(DefaultMetricLogWriter, Vec<u64>), Violation> {
     let mut cfg = ConfigEntity::new();
     cfg.config.app.app_name = APP.into();
-    cfg.config.log.metric.dir = live.clone();
+    cfg.config.log.metric.dir = live.to_string();
     cfg.config.log.metric.use_pid = false;
     cfg.config.log.metric.flush_interval_sec = 0;
     cfg.config.use_cache_time = false;
     sentinel_core::config::reset_global_config(cfg);
     let creation_sec = sc.epoch_ns / SEC;
-    fsseam::start(&live);
+    fsseam::start(live);
     let mut writer = match DefaultMetricLogWriter::new(sc.max_size, sc.max_files) {
         Ok(x) => x,
-        Err(e) => return Some(Violation::new("C19/writer-construction-error", 0, e.to_string())),
+        Err(e) => return Err(Violation::new("C19/writer-construction-error", 0, e.to_string())),
     };
     let mut sec = creation_sec;
     let mut secs = vec![];
@@ -445,11 +443,24 @@ fn run(sc: &Scn, root: &str, w: &mut World, tr: &mut Trace, cov: &mut Cov) -> Op
             .collect();
         if let Err(e) = writer.write(ts, &mut items) {
             let _ = fsseam::stop();
-            return Some(Violation::new("C19/write-error", i, e.to_string()));
+            return Err(Violation::new("C19/write-error", i, e.to_string()));
         }
         secs.push(sec);
         w.ops += 1;
     }
+    Ok((writer, secs))
+}
+
+fn run(sc: &Scn, root: &str, w: &mut World, tr: &mut Trace, cov: &mut Cov) -> Option<Violation> {
+    let live = format!("{}/live/", root);
+    let synth = format!("{}/synth/", root);
+    let _ = std::fs::remove_dir_all(root);
+    std::fs::create_dir_all(&live).expect("mkdir");
+    let creation_sec = sc.epoch_ns / SEC;
+    let (writer, secs) = match write_history(sc, &live, w, cov) {
+        Ok(x) => x,
+        Err(v) => return Some(v),
+    };
     drop(writer);
     let log = fsseam::stop();
     let creates = log.iter().filter(|o| matches!(o, FsOp::Create(_))).count();
@@ -518,4 +529,114 @@ fn run(sc: &Scn, root: &str, w: &mut World, tr: &mut Trace, cov: &mut Cov) -> Op
     cov.nontrivial = if sc.crash { d.nfiles >= 2 && states >= 200 } else { d.nfiles >= 2 };
     tr.word(states);
     None
+}
+
+
+// ---- validation of the crash synthesis against real process deaths ----------------------------
+
+/// child side: run the writer phase of the scenario with the seam in kill mode; the process dies
+/// inside the seam at the given operation. Exit code 3 if the history ends before that point.
+pub fn kill_child_main(scenario_file: &str, nops: usize, extra: usize, root: &str) -> ! {
+    let sc: Scn = serde_json::from_slice(&std::fs::read(scenario_file).expect("read scenario")).expect("parse scenario");
+    crate::engine::init_single_process(&C19);
+    let live = format!("{}/live/", root);
+    let _ = std::fs::remove_dir_all(root);
+    std::fs::create_dir_all(&live).expect("mkdir");
+    let mut w = World::start(sc.epoch_ns);
+    let mut cov = Cov::default();
+    fsseam::set_kill(nops, extra);
+    let r = write_history(&sc, &live, &mut w, &mut cov);
+    if let Ok((writer, _)) = r {
+        drop(writer);
+    }
+    std::process::exit(3);
+}
+
+/// parent side: for `n` generated histories, record the operation log in-process, pick crash points
+/// (before an operation, inside a write, inside an index entry), let a child process really die
+/// there, and compare the directory it leaves with the synthesised one, byte by byte.
+pub fn validate_main(n: u64, seed: u64) -> i32 {
+    crate::engine::init_single_process(&C19);
+    let exe = std::env::current_exe().expect("exe");
+    let base = scratch_root();
+    let (mut points, mut bad, mut torn_idx, mut torn_line) = (0u64, 0u64, 0u64, 0u64);
+    for i in 0..n {
+        let scv = crate::engine::make_scenario(&C19, seed, i, false);
+        let sc: Scn = serde_json::from_value(scv.clone()).expect("scenario");
+        let root = format!("{}-val", base);
+        let live = format!("{}/live/", root);
+        let synth = format!("{}/synth/", root);
+        let child_root = format!("{}-child", base);
+        let _ = std::fs::remove_dir_all(&root);
+        std::fs::create_dir_all(&live).expect("mkdir");
+        let mut w = World::start(sc.epoch_ns);
+        let mut cov = Cov::default();
+        let log = match write_history(&sc, &live, &mut w, &mut cov) {
+            Ok((writer, _)) => {
+                drop(writer);
+                fsseam::stop()
+            }
+            Err(v) => {
+                println!("validate: history {} failed to write: {}", i, v.detail);
+                let _ = fsseam::stop();
+                continue;
+            }
+        };
+        sentinel_core::config::reset_global_config(ConfigEntity::new());
+        let scen_file = format!("{}/scenario.json", root);
+        std::fs::write(&scen_file, serde_json::to_vec(&scv).unwrap()).expect("write scenario");
+        let mut rng = Rng::new(seed ^ (i.wrapping_mul(0x9E37_79B9_7F4A_7C15)));
+        for _ in 0..6 {
+            let k = rng.below(log.len() as u64 + 1) as usize;
+            let extra = match log.get(k) {
+                Some(FsOp::Write(_, b)) if b.len() > 1 && rng.chance(3, 4) => rng.range(1, b.len() as u64 - 1) as usize,
+                _ => 0,
+            };
+            let files = fsseam::synthesize(&log, k, extra, &live, &synth);
+            if files.iter().any(|(name, c)| name.ends_with(".idx") && c.len() % 16 != 0) {
+                torn_idx += 1;
+            } else if extra > 0 {
+                torn_line += 1;
+            }
+            let st = std::process::Command::new(&exe).args(["c19-kill", &scen_file, &k.to_string(), &extra.to_string(), &child_root]).env("VERIF_ROOT", crate::engine::verif_root()).status().expect("spawn child");
+            let expect_code = if k >= log.len() { 3 } else { 0 };
+            points += 1;
+            let mut diff = vec![];
+            if st.code() != Some(expect_code) {
+                diff.push(format!("child exit status {:?}, expected {}", st.code(), expect_code));
+            }
+            let child_live = format!("{}/live/", child_root);
+            let mut on_disk: std::collections::BTreeMap<String, Vec<u8>> = Default::default();
+            if let Ok(rd) = std::fs::read_dir(&child_live) {
+                for e in rd.flatten() {
+                    on_disk.insert(e.file_name().to_string_lossy().to_string(), std::fs::read(e.path()).unwrap_or_default());
+                }
+            }
+            for (name, c) in &files {
+                match on_disk.get(name) {
+                    Some(x) if x == c => {}
+                    Some(x) => diff.push(format!("{}: {} bytes after the real death, {} synthesised", name, x.len(), c.len())),
+                    None => diff.push(format!("{}: missing after the real death", name)),
+                }
+            }
+            for name in on_disk.keys() {
+                if !files.contains_key(name) {
+                    diff.push(format!("{}: exists after the real death, not synthesised", name));
+                }
+            }
+            if !diff.is_empty() {
+                bad += 1;
+                println!("validate: history {} crash point op {} (+{} bytes): {}", i, k, extra, diff.join("; "));
+            }
+            let _ = std::fs::remove_dir_all(&child_root);
+        }
+        let _ = std::fs::remove_dir_all(&root);
+    }
+    println!("c19 crash-synthesis validation: {} histories, {} real process deaths compared with the synthesised state ({} inside an index entry, {} inside a line): {} differences", n, points, torn_idx, torn_line, bad);
+    if bad > 0 {
+        println!("HARNESS-ERROR the synthesised crash states differ from real ones");
+        2
+    } else {
+        0
+    }
 }
